@@ -362,7 +362,10 @@ func runC11(c *kit.Ctx) {
 		pubs: map[string]*kit.Publisher{}}
 	sh := fmt.Sprintf("s%d", c.Shard)
 	pA, pB, pC := "/c11"+sh+"/a/x", "/c11"+sh+"/a/y", "/c11"+sh+"/b"
-	w.paths = []string{pA, pB, pC}
+	// pD is a proper ancestor (two levels up) of the subtrees the wildcard rights below name: a right on a subtree
+	// grants nothing on the paths above it
+	pD := "/c11" + sh
+	w.paths = []string{pA, pB, pC, pD}
 	// source streams, published by the administrator (push right '*'); media time runs fast so HLS segments exist
 	for _, p := range w.paths {
 		pub, code, err := kit.StartPublisher(srv, p, "admin", "admin", true, 3*time.Millisecond)
